@@ -139,6 +139,62 @@ def t_protocol(n_rest):
     return t
 
 
+def t_protocol_chunk(minutes=2):
+    """fast simulator: every candidate list of two or more orders - the initial one and each one fetched again after a fill -
+    is put into path order before anything is filled from it.  The candidate query is a contracted call here (its own
+    contract is C02 `candidates`): it returns one resting order first and a list of two after every fill."""
+    def t(h):
+        from props import C02 as P2
+        W = P2.match_world(h, 1, allow_new=False, hook_cancels=False)
+        extra_orders = P2.mk_orders(h, 2, prefix='late')
+        rows = []
+        for j in range(minutes):
+            v = h.vec(f'm{j}_', 6)
+            P2.valid_candle(h, v)
+            rows.append(v)
+        # the resting order is reached in the first minute of the chunk
+        h.assume(h.ev('includes(c, p)', c=rows[0], p=W.rest[0].f['price']))
+        chunk = Arr(minutes, (lambda k, rows=rows: ops.pick(rows, k)), np=True, cols=6)
+        trace = []
+        ov = h.ctx.cfg.overrides
+        calls = {'n': 0}
+
+        def candidates(i, a, k):
+            calls['n'] += 1
+            r = [W.rest[0]] if calls['n'] == 1 else list(extra_orders)
+            trace.append(('candidates', list(a), r))
+            return r
+        ov[f'{BM}._get_executing_orders'] = candidates
+        def sort_stub(i, a, k):
+            # contracted call (its path order is the obligation sort.path-order): returns the candidates it was given
+            trace.append(('sort', list(a), a[0]))
+            return a[0]
+        ov[f'{BM}._sort_execution_orders'] = sort_stub
+        real_exec = ov['jesse.models.Order.Order.execute']
+
+        def exec_spy(i, a, k):
+            trace.append(('execute', list(a), None))
+            return real_exec(i, a, k)
+        ov['jesse.models.Order.Order.execute'] = exec_spy
+        h.cover('protocol.chunk.pre')
+        out = h.outcome(f'{BM}._simulate_price_change_effect_multiple_candles', chunk, 'Sandbox', 'BTC-USDT')
+        h.prove(out.ok, 'protocol.chunk.no-exception', {'raised': out.exc})
+        if not out.ok:
+            return
+        ok = True
+        pending = None
+        for tag, a, r in trace:
+            if tag == 'candidates':
+                pending = r if len(r) > 1 else None
+            elif tag == 'sort':
+                ok = ok and pending is not None and a[0] is pending
+                pending = None
+            elif tag == 'execute':
+                ok = ok and pending is None
+        h.prove(ok, 'protocol.chunk.two-or-more-candidates-are-sorted-before-any-fill', {'events': [t_[0] for t_ in trace]})
+    return t
+
+
 def mk_sort_task(n, red):
     def t(h):
         c = _candle(h)
@@ -194,6 +250,8 @@ def tasks(tier):
     for n in ((1, 2) if tier == 'quick' else (1, 2, 3)):
         ts.append(Task(f'protocol.n{n}', t_protocol(n), extra={'spec_mod': P2.SPEC, 'bounded': f'{n} resting orders + one reaction order'},
                        overrides=dict(ov), max_paths=200000))
+    ts.append(Task('protocol.chunk', t_protocol_chunk(2), extra={'spec_mod': P2.SPEC, 'bounded': 'chunk of 2 minutes, one resting order then two candidates after each fill'},
+                   overrides=dict(ov), max_paths=400000))
     # the gap to the previous close is part of the minute's path (quantifier of C08): proved for all reals
     ts.append(Task('fixed-jump', P7.t_fixed_jump, extra={'spec_mod': P7.SPEC}, overrides=dict(ov)))
     return ts
